@@ -10,7 +10,7 @@ from props.c02 import (run_impl as _run_impl2, od_token, cb_token, mux, find_ent
                        parse_od, parse_cb, frames_of)
 
 ID = "C06"
-PROOF_MODULES = ["CanopenProofs.C06"]
+PROOF_MODULES = ["CanopenProofs.C06", "CanopenProofs.C01"]
 GENERATED = ["Datatypes", "SdoConst"]
 THEOREMS = [
     "Canopen.C06.read_refusal_codes",
@@ -20,8 +20,9 @@ THEOREMS = [
     "Canopen.C06.any_refusal_inert",
     "Canopen.C06.toggle_error",
     "Canopen.C06.unknown_command",
+    "Canopen.C01.client_decodes_abort",      # the client API raises the aborted-transfer error with exactly the code
 ]
-FINGERPRINT = c02.FINGERPRINT + ["canopen.sdo.exceptions:SdoAbortedError"]
+FINGERPRINT = c02.FINGERPRINT + ["canopen.sdo.exceptions:SdoAbortedError", "canopen.sdo.client:SdoClient.read_response"]
 TRUSTED = c02.TRUSTED
 ASSUMPTIONS = c02.ASSUMPTIONS + [
     "'no value' is answered 0x060A0023 (the code the library and its tests use; CiA 301's 0x08000024 noted)",
